@@ -558,11 +558,15 @@ def run(tier, seed):
             ops = [(e["op"] if e["op"] != "read" else "read:" + e["what"]) for e in vr["events"]]
             rep.fail(c, "value-session", {"kind": vr["cls"], "ops": ops[:70]})
     rep.extra["value_sessions"] = {"sessions": len(vrecs), "events": sum(len(v["events"]) for v in vrecs)}
+    # 7. components of a Cluster are Signal / AccSignal objects whose values the cluster replaces (time_match, same_start, combine_motions):
+    #    reads of their derived quantities inside cluster sessions, validated by Trace_ClusterObj (clauses Read_*, ClusterRead_*)
+    from harness import clusterobj
+    clusterobj.run_sessions(rep, tier, seed, "C04/cluster", "C04")
     rep.sample({"session": [e["op"] for e in recs[0]["events"]][:12], "pi_after_each": [e["pi"] for e in recs[0]["events"]][:12]})
     rep.sample({"edge": "state fa=1,smooth=1,dv=1,rs=1 --running_average--> all memo bits off; real AccSignal snapshot in that state, every read compared with a fresh object"})
     rep.exhaustive = True
     rep.assumptions = ["freshness oracle: a freshly constructed object of the same class with copies of values, dt, smooth_fa_freqs, response_times (runs the same library code by design)",
                        "records: float64, n = 50 (walk) and 30..80 (sessions); explicit generators with non-default arguments are outside the property's operation list",
                        "private memo flags are read only to sharpen diagnosis; a memo-bit mismatch without staleness is reported as model divergence, not as a violation"]
-    return rep.finish(checker_cmd="tlc SignalCache (exhaustive, -simulate) / Trace_SignalCache (harness/drivers/c04.py)",
+    return rep.finish(checker_cmd="tlc SignalCache (exhaustive, -simulate) / Trace_SignalCache / Trace_SignalObj / Trace_ClusterObj (harness/drivers/c04.py, harness/sessions.py, harness/clusterobj.py)",
                       trusted_base=["TLC 1.8", "numpy array_equal / deepcopy"])
